@@ -99,6 +99,24 @@ def r21(ctx: Ctx) -> RuleReport:
             bn.show(total)[:160] if d is None else f'selects when {bn.show(total)[:200]}; differs from the documented filter for {d}')
     srcs = {a[2] for a in alts}
     rep.add(f'{ft.fq}: ranges over self.triples', ft.loc(), 'ok' if srcs == {'self.triples'} else 'undecided', f'iterates {sorted(srcs)}')
+    # with filters given: edges/attributes = the filter AND the unfiltered predicate, for every combination of arguments
+    for name in ('edges', 'attributes'):
+        fi = repo.func(G, f'Graph.{name}')
+        try:
+            alts2 = sel.of_function(fi, {})
+        except AnalysisError:
+            continue
+        got = bn.mk_or([bn.mk_and([c, p]) for c, p, _, _ in alts2])
+        pp = fi.positional[1:4]
+        filt = bn.mk_and([bn.mk_or([('atom', f'{p} is None'), ('atom', ' == '.join(sorted([p, f't[{i}]'])))]) for i, p in enumerate(pp)])
+        wantf = bn.mk_and([filt, preds[name]])
+        if set(bn.atoms_of(got)) <= set(bn.atoms_of(wantf)):
+            d = bn.equivalent(got, wantf)
+            rep.add(f'{fi.fq}: with filters, the result is the filtered part of the unfiltered result', fi.loc(), 'ok' if d is None else 'violation',
+                    '' if d is None else f'{name}(source, role, target) selects a triple when {bn.show(got)[:220]}; for {d} this differs from '
+                                         f'"matches the filters and is in {name}()": a filtered query returns a triple the unfiltered one does not (or misses one)')
+        else:
+            rep.info(f'{fi.fq}: with filters', fi.loc(), 'predicate not in the known vocabulary: ' + bn.show(got)[:160])
     # public methods pass their parameters in position
     for name in ('edges', 'attributes'):
         fi = repo.func(G, f'Graph.{name}')
